@@ -85,6 +85,26 @@ def handle (toks : List String) : String :=
     match floatTok? stat, parseFloatList? qq, parseFloatList? cdf with
     | some stat, some qq, some cdf => fmtO (interp stat qq cdf)
     | _, _, _ => "bad-op"
+  | ["alpha", typ, obs, dobs, ens, dens] =>
+    match parseFloatList? obs, parseFloatList? dobs, parseFloatMat? ens, parseFloatMat? dens with
+    | some obs, some dobs, some ens, some dens =>
+      if typ = "CV" then
+        let r := alphaCV sortF (0.3 : Float) obs dobs ens dens
+        hexOfFloat r.1 ++ " " ++ fmtO r.2
+      else if typ = "AD" then
+        match alphaAD sortAD (-1e-300 : Float) (0.3 : Float) obs dobs ens dens with
+        | .ok r => "ok " ++ hexOfFloat r.1 ++ " " ++ hexOfFloat r.2
+        | .error _ => "err"
+      else "bad-op"
+    | _, _, _, _ => "bad-op"
+  | ["checkens", obs, ens] =>
+    match parseFloatList? obs, parseFloatMat? ens with
+    | some obs, some ens =>
+      match checkEnsemble (obs.map optNaN) (ens.map fun r => r.map optNaN) with
+      | .ok k => "ok " ++ fmtFloatList (k.map (·.1)) ++ " " ++ toString k.length
+      | .error .lengthMismatch => "err lengthMismatch"
+      | .error .noValidData => "err noValidData"
+    | _, _ => "bad-op"
   | ["cvmpg", n, stat] =>
     match n.toNat?, floatTok? stat with
     | some n, some stat => fmtO (cvmPvalue n stat)
